@@ -8,6 +8,7 @@ package main
 //            "jobs": [{"harness": "vh/c07.HexRoundTrip", "params": {"n": 3}, "cfg": {"MaxFork": 64}}]}
 
 import (
+	"sync"
 	"runtime/debug"
 	"runtime/pprof"
 	"encoding/json"
@@ -124,6 +125,7 @@ func main() {
 		}
 	}
 	_ = pkgs
+	xcheckWG.Wait()
 	out := map[string]interface{}{"load_s": loadS, "results": results}
 	b, _ := json.MarshalIndent(out, "", " ")
 	if *outPath != "" {
@@ -134,6 +136,8 @@ func main() {
 		os.Stdout.Write(b)
 	}
 }
+
+var xcheckWG sync.WaitGroup
 
 func fatal(err error) {
 	fmt.Fprintln(os.Stderr, "gosym:", err)
@@ -254,7 +258,13 @@ func runJob(prog *ssa.Program, job Job, verbose bool) *JobResult {
 	res.CoreHits = ex.coreHits
 	res.PoolHits = ex.poolHits
 	if cfg.XCheckEvery > 0 {
-		res.XCheck = runXCheck(ex.xsamples, os.Getenv("GOSYM_XDUMP"))
+		// the second-opinion solvers run while the next job explores; main waits for them before writing results
+		samples := ex.xsamples
+		xcheckWG.Add(1)
+		go func() {
+			defer xcheckWG.Done()
+			res.XCheck = runXCheck(samples, os.Getenv("GOSYM_XDUMP"))
+		}()
 	}
 	res.SolverS = ex.solverDur.Seconds()
 	res.Funcs = sortedKeys(ex.funcs)
